@@ -178,6 +178,7 @@ PURE_NAMES = {
     "term_frequencies_for_single_column_sql", "comparison_vector_distribution_sql", "comparison_viewer_table_sqls",
     "render_splink_comparison_viewer_html", "_as_completed_dict", "as_dict", "waterfall_chart", "unlinkables_chart",
     "match_weights_histogram", "parameter_estimate_comparisons", "match_weights_chart", "m_u_parameters_chart",
+    "threshold_args_to_match_prob_list", "_get_edge_id_column_names",
     "_bins", "_hist_sql", "isfile", "open", "dump", "dumps", "write", "ensure_is_list", "Template", "read_resource",
 }
 # accessors that return a part of their receiver
@@ -186,7 +187,20 @@ SUBOBJECT = {
     "_get_comparison_by_output_column_name": ("core_model_settings", "comparisons", "[]"),
     "_get_comparison_level_by_comparison_vector_value": ("comparison_levels", "[]"),
 }
-ALIASING_BUILTINS = {"list", "sorted", "enumerate", "zip", "filter", "tuple", "set", "reversed", "copy"}
+# pure calls whose result may be (or contain) their receiver / arguments
+PASS_THROUGH = {"list", "sorted", "enumerate", "zip", "filter", "tuple", "set", "reversed", "copy", "dict", "map", "getattr",
+                "get", "get_with_logging", "items", "keys", "values", "to_blocking_rule_creator", "ensure_is_iterable",
+                "ensure_is_list", "max", "min", "blocking_rule_to_obj", "join_vals"}
+ALIASING_BUILTINS = PASS_THROUGH
+# the only names of PURE_NAMES accepted as *methods of a linker-visible object* (reviewed: none of them writes its
+# receiver); any other method call on visible state is an unclassified call (Mut FOther + Sql)
+VISIBLE_PURE_METHODS = {
+    "_as_completed_dict", "as_dict",                       # Settings serialisers (C09's subject; no writes)
+    "_columns_without_estimated_parameters_message", "_not_trained_messages",   # logging
+    "m_u_parameters_chart", "match_weights_chart",         # chart builders of Settings (read-only)
+    "get_with_logging",                                    # cache lookup (appends to a query log only)
+    "table_to_splink_dataframe",                           # db api: wraps a table name
+}
 MUTATORS = {"append", "extend", "pop", "remove", "clear", "insert", "update", "sort", "reverse", "add", "discard",
             "add_preceding_rules", "_add_trained_m_probability", "_add_trained_u_probability", "setdefault",
             "invalidate_cache"}
@@ -213,7 +227,8 @@ class Obj:
     oid: int
 
 
-OTHER = "OTHER"
+OTHER = "OTHER"      # unknown provenance: may alias linker-visible state (operation arguments, results of pass-through calls)
+FRESH = "FRESH"      # provably not linker state: constants, displays, module globals, objects constructed in this function
 
 
 def norm_path(path: tuple) -> tuple:
@@ -553,12 +568,12 @@ class Translator:
             return 3 if v.root == "vis" else 1
         if isinstance(v, Obj):
             return 2
-        return 0
+        return -1 if v == FRESH else 0
 
     def join_vals(self, vals):
         vals = [v for v in vals if v is not None]
         if not vals:
-            return OTHER
+            return FRESH
         return max(vals, key=self.rank)
 
     def join_env(self, e1, e2):
@@ -652,6 +667,8 @@ class Translator:
                 tv = self.env.get(t.id, OTHER)
                 if isinstance(tv, Ref):
                     self.mut(tv.root, tv.path, None)
+                elif tv == OTHER and not isinstance(s.value, (ast.Constant, ast.JoinedStr)):
+                    self.lost_alias("augmented assignment on an object of unknown provenance", line)
             else:
                 self.assign(t, OTHER, s.value, line)
             out, self.out = self.out, []
@@ -675,6 +692,8 @@ class Translator:
                     bv = self.ev(t.value)
                     if isinstance(bv, Ref):
                         self.mut(bv.root, bv.path, None)
+                    elif bv == OTHER:
+                        self.lost_alias("del on an object of unknown provenance", line)
             out, self.out = self.out, []
             return seq(out), False
         if isinstance(s, ast.With):
@@ -694,7 +713,12 @@ class Translator:
                 raise Untranslatable(f"assert with effects at {self.cur_fkey}:{line}")
             return ("Skip",), False
         if isinstance(s, ast.FunctionDef):
-            self.env[s.name] = OTHER
+            # a closure is not analysed: accept it only if it cannot reach anything but fresh values
+            params = {a.arg for a in s.args.args + s.args.kwonlyargs}
+            for sub in ast.walk(s):
+                if isinstance(sub, ast.Name) and sub.id not in params and self.env.get(sub.id, FRESH) != FRESH:
+                    raise Untranslatable(f"nested def {s.name} captures {sub.id} (linker state or unknown) at {self.cur_fkey}:{line}")
+            self.env[s.name] = FRESH
             return ("Skip",), False
         raise Untranslatable(f"statement {type(s).__name__} at {self.cur_fkey}:{line}")
 
@@ -704,7 +728,7 @@ class Translator:
             raise Untranslatable(f"loop else at {self.cur_fkey}:{line}")
         if isinstance(s, ast.For):
             iv, pre = self.emit_expr(s.iter)
-            elem = Ref(iv.root, norm_path(iv.path + ("[]",))) if isinstance(iv, Ref) else OTHER
+            elem = Ref(iv.root, norm_path(iv.path + ("[]",))) if isinstance(iv, Ref) else (FRESH if iv == FRESH else OTHER)
         else:
             _v, pre = self.emit_expr(s.test)
             if pre:
@@ -801,7 +825,7 @@ class Translator:
                     self.assign(te, self.peek(ve), ve, line)
             else:
                 for te in t.elts:
-                    self.assign(te, v if isinstance(v, Ref) else OTHER, value_node, line)
+                    self.assign(te, v if isinstance(v, Ref) or v == FRESH else OTHER, value_node, line)
             return
         if isinstance(t, ast.Attribute):
             bv = self.ev(t.value)
@@ -821,17 +845,26 @@ class Translator:
                     self.env[value_node.id] = Ref("vis", path)
             elif isinstance(bv, Obj):
                 self.heap[(bv.oid, t.attr)] = v
+            elif bv != FRESH:
+                self.lost_alias(f"assignment to .{t.attr} of an object of unknown provenance", line)
             return
         if isinstance(t, ast.Subscript):
             bv = self.ev(t.value)
             self.ev(t.slice)
             if isinstance(bv, Ref):
                 self.mut(bv.root, bv.path, None)
+            elif bv != FRESH and not isinstance(bv, Obj):
+                self.lost_alias("item assignment on an object of unknown provenance", line)
             return
         if isinstance(t, ast.Starred):
             self.assign(t.value, OTHER, value_node, line)
             return
         raise Untranslatable(f"assignment target {type(t).__name__} at {self.cur_fkey}:{line}")
+
+    def lost_alias(self, what, line):
+        """fail closed: a write through something that may alias the linker's state"""
+        self.tr.unknown_calls.append(f"{what} @ {self.cur_fkey}:{line}")
+        self.out.append(("Mut", "FOther", False, None))
 
     def peek(self, node):
         """abstract value of an expression already evaluated for effects"""
@@ -846,9 +879,9 @@ class Translator:
         if node is None:
             return OTHER
         if isinstance(node, ast.Name):
-            return self.env.get(node.id, OTHER)
+            return self.env.get(node.id, FRESH)      # not a local/parameter: module global or builtin
         if isinstance(node, ast.Constant):
-            return OTHER
+            return FRESH
         if isinstance(node, ast.Attribute):
             bv = self.ev(node.value)
             if isinstance(bv, Ref):
@@ -861,13 +894,14 @@ class Translator:
                 return OTHER
             if node.attr in SQL_ATTRS:
                 self.out.append(("Sql", self.site_id(self.tr.sites, self.cur_stmt_line, "." + node.attr)))
-            return OTHER
+                return FRESH
+            return bv                                   # a part of a fresh object is fresh, of an unknown one unknown
         if isinstance(node, ast.Subscript):
             bv = self.ev(node.value)
             self.ev(node.slice)
             if isinstance(bv, Ref):
                 return Ref(bv.root, norm_path(bv.path + ("[]",)))
-            return OTHER
+            return bv if bv in (FRESH, OTHER) else OTHER
         if isinstance(node, ast.Call):
             return self.ev_call(node)
         if isinstance(node, (ast.IfExp, ast.BoolOp)):
@@ -885,15 +919,16 @@ class Translator:
             for sub in ast.walk(node.body):
                 if isinstance(sub, ast.Call):
                     raise Untranslatable(f"lambda with a call at {self.cur_fkey}:{self.cur_stmt_line}")
-            return OTHER
+            return FRESH
         if isinstance(node, ast.NamedExpr):
             v = self.ev(node.value)
             self.env[node.target.id] = v
             return v
-        if isinstance(node, (ast.Tuple, ast.List, ast.Set)):
-            vals = [self.ev(e) for e in node.elts]
-            refs = [v for v in vals if isinstance(v, Ref)]
-            return self.join_vals(refs) if refs else OTHER      # a fresh container holding visible objects
+        if isinstance(node, (ast.Tuple, ast.List, ast.Set, ast.Dict)):
+            elts = node.elts if not isinstance(node, ast.Dict) else [k for k in node.keys if k is not None] + node.values
+            vals = [self.ev(e) for e in elts]
+            # a new container: as visible / unknown as the most visible thing put into it
+            return self.join_vals(vals)
         if isinstance(node, ast.Starred):
             return self.ev(node.value)
         if isinstance(node, (ast.Await, ast.Yield, ast.YieldFrom)):
@@ -906,14 +941,14 @@ class Translator:
                 self.ev(ch.value)
             elif isinstance(ch, ast.comprehension):
                 raise Untranslatable("comprehension in generic position")
-        return OTHER
+        return FRESH            # arithmetic, comparisons, f-strings ...: a new value
 
     def ev_comp(self, node):
         saved_env = dict(self.env)
         pre_n = len(self.out)
         for g in node.generators:
             iv = self.ev(g.iter)
-            elem = Ref(iv.root, norm_path(iv.path + ("[]",))) if isinstance(iv, Ref) else OTHER
+            elem = Ref(iv.root, norm_path(iv.path + ("[]",))) if isinstance(iv, Ref) else (FRESH if iv == FRESH else OTHER)
             self.bind_target(g.target, elem)
             n1 = len(self.out)
             for c in g.ifs:
@@ -935,7 +970,7 @@ class Translator:
             n = self.node_id(self.cur_stmt_line, "comp", self.cur_stmt_line)
             self.out.append(("Loop", n, seq(body)))
         _ = pre_n
-        return v if isinstance(v, Ref) else OTHER
+        return v if isinstance(v, Ref) or v == FRESH else OTHER
 
     def inline_call(self, key, selfv, call, argvals, kwvals):
         return self.inline(key, selfv, call, argvals, kwvals)
@@ -990,22 +1025,31 @@ class Translator:
             e = ("Sql", self.site_id(self.tr.sites, line, name))
             if e not in self.out:          # one failure point per statement
                 self.out.append(e)
-            return OTHER
+            return FRESH                   # a new SplinkDataFrame / frame / records
         if name in MUTATORS:
             if isinstance(rv, Ref):
                 if name.startswith("_add_trained_"):
                     self.mut(rv.root, rv.path + ("_trained_m_probabilities",), None)
                 else:
                     self.mut(rv.root, rv.path, None)
-            return OTHER
+            elif rv == OTHER:
+                self.lost_alias(f"{name}() on an object of unknown provenance", line)
+            return FRESH
         if name in SUBOBJECT and isinstance(rv, Ref):
             return Ref(rv.root, norm_path(rv.path + SUBOBJECT[name]))
-        if name in PURE_NAMES:
-            if name in ALIASING_BUILTINS:
-                refs = [v for v in allvals if isinstance(v, Ref)]
-                return self.join_vals(refs) if refs else OTHER
-            return OTHER
+        if name == "getattr" and rv is None and argvals and isinstance(argvals[0], Ref):
+            a1 = node.args[1] if len(node.args) > 1 else None
+            attr = a1.value if isinstance(a1, ast.Constant) and isinstance(a1.value, str) else "?"
+            return Ref(argvals[0].root, norm_path(argvals[0].path + (attr,)))
+        if name in PURE_NAMES and not (isinstance(rv, Ref) and rv.root == "vis" and name not in VISIBLE_PURE_METHODS):
+            if name in PASS_THROUGH:
+                return self.join_vals(allvals + ([rv] if rv is not None else []))
+            return FRESH
         # unknown call
+        if rv == OTHER or (rv is None and OTHER in allvals and name not in PURE_NAMES):
+            self.lost_alias(f"unclassified call {name}() on / with an object of unknown provenance", line)
+            self.out.append(("Sql", self.site_id(self.tr.sites, line, f"unknown:{name}")))
+            return OTHER
         touched = [v for v in allvals + [rv] if isinstance(v, (Ref, Obj))]
         if any(isinstance(v, Obj) or (isinstance(v, Ref) and v.root == "vis" and classify(v.path) is not None
                                       or (isinstance(v, Ref) and v.root == "vis" and not v.path))
@@ -1016,7 +1060,36 @@ class Translator:
         elif touched:
             self.tr.unknown_calls.append(f"{name} @ {self.cur_fkey}:{line} (handed private/cache state)")
             self.out.append(("Sql", self.site_id(self.tr.sites, line, f"unknown:{name}")))
+        elif not touched:
+            return FRESH if name is not None and name[:1].isupper() else OTHER     # constructor call: a new object
         return OTHER
+
+
+COMPONENT_FILES = {
+    "LinkerTraining": "splink/internals/linker_components/training.py",
+    "LinkerInference": "splink/internals/linker_components/inference.py",
+    "LinkerClustering": "splink/internals/linker_components/clustering.py",
+    "LinkerEvalution": "splink/internals/linker_components/evaluation.py",
+    "LinkerTableManagement": "splink/internals/linker_components/table_management.py",
+    "LinkerMisc": "splink/internals/linker_components/misc.py",
+    "LinkerVisualisations": "splink/internals/linker_components/visualisations.py",
+}
+# public methods deliberately outside the scope, with the reason
+EXCLUDED_OPS: dict = {}
+
+
+def completeness(ix: "Index"):
+    """(public component methods that are neither an operation nor excluded, operations that no longer exist)"""
+    have = {v for v in OPS.values()}
+    public = set()
+    for cls in COMPONENT_FILES:
+        for (c, name) in ix.defs:
+            if c == cls and not name.startswith("_"):
+                public.add((c, name))
+    missing = sorted(f"{c}.{n}" for c, n in public - have if f"{c}.{n}" not in EXCLUDED_OPS)
+    stale = sorted(f"{c}.{n}" for c, n in have if c is not None and (c, n) not in ix.defs)
+    stale += sorted(n for c, n in have if c is None and (None, n) not in ix.defs)
+    return missing, stale
 
 
 def translate_all(repo: Path = None):
